@@ -513,9 +513,11 @@ class FD:
                 return f(*[self.eval(a, env) for a in e.args], **kwargs)
         raise Inconclusive('fdeval: call of %s' % (name or ast.unparse(e.func)))
 
-    def call_function(self, fn, args, kwargs=None, bound_self=None):
+    def call_function(self, fn, args, kwargs=None, bound_self=None, closure_env=None):
         params = [a.arg for a in fn.args.args]
-        env = {}
+        env = dict(closure_env) if closure_env is not None else {}
+        for p in params:
+            env.pop(p, None)
         if bound_self is not None:
             env[params[0]] = bound_self
             params = params[1:]
@@ -570,6 +572,8 @@ class FD:
         if isinstance(recv, Obj):
             if ('method:' + attr) in recv.attrs:
                 return recv.attrs['method:' + attr](*args, **kwargs)
+            if attr in recv.attrs and getattr(recv.attrs[attr], '_fd_callable', False):
+                return recv.attrs[attr](*args, **kwargs)   # a callable stored in an instance attribute
             if recv.attrs.get('__closed__'):
                 raise Raised('AttributeError', '%r object has no attribute %r' % (recv._name, attr))
         if recv is UNKNOWN:
@@ -763,6 +767,23 @@ class FD:
             if v is None or v is UNKNOWN:
                 raise Raised('TypeError', 'exceptions must derive from BaseException')
             raise Raised(dotted(st.exc) or 'Exception')
+        if isinstance(st, ast.FunctionDef):
+            # nested function: a closure over the defining environment (free variables are read at call time)
+            if st.decorator_list:
+                raise Inconclusive('fdeval: decorated nested function')
+            outer = env
+
+            def closure(*args, **kwargs):
+                return self.call_function(st, list(args), kwargs, closure_env=outer)
+            closure._fd_callable = True
+            closure._fd_def = st
+            env[st.name] = closure
+            return
+        if isinstance(st, ast.ClassDef):
+            if any(not isinstance(b, (ast.Pass, ast.Expr)) for b in st.body):
+                raise Inconclusive('fdeval: nested class with members')
+            env[st.name] = Obj('class ' + st.name)
+            return
         raise Inconclusive('fdeval: unsupported statement %s' % type(st).__name__)
 
     NON_EXCEPTION_KINDS = ('KeyboardInterrupt', 'SystemExit', 'GeneratorExit', 'BaseException')
